@@ -125,6 +125,42 @@ def skeleton2(rnd, np=None, conflict=0.55, alias_p=0.0, dup_p=0.12, symbolic=5):
     return p
 
 
+def directed_alias(rnd):
+    """Directed family: a package installed under an alias that is the name of a real package (b), reused from below
+    through the alias, and a nested package that requires the real b: the slot reserved through the alias must stay
+    free. Roles are permuted over a, c, d; decorations are random."""
+    p = skeleton2(rnd, np=4)
+    for k in list(p):
+        if k.endswith("t") and (k.startswith("p") or k.startswith("r")):
+            p[k] = 0
+    X, E, Z = rnd.sample([1, 3, 4], 3)
+    B = 2
+
+    def put(tag, t, digit, alias=0, op=1, kind=0):
+        p.update({tag + "t": t, tag + "r": op, tag + "k": kind, tag + "a": alias, tag + "c": digit})
+    slots = [(E, 1, 3), (X, 1, 0), (Z, 1, 0)]
+    rnd.shuffle(slots)
+    for i, (t, dgt, al) in enumerate(slots):
+        put("r%d" % i, t, dgt, al, op=rnd.choice([1, 1, 2]) if t != Z else 1)
+    # versions: X 1.0.0; E 1.0.0; Z 1.0.0 and 2.0.0; B 3.0.0 (and maybe 1.0.0)
+    def ver(pi, vi, major):
+        tag = "%d%d" % (pi - 1, vi)
+        p.update({"mj" + tag: major, "mi" + tag: 0, "pr" + tag: 0, "bl" + tag: 0})
+        return tag
+    for pk, majors in ((X, [1]), (E, [1]), (Z, [1, 2]), (B, [3] if rnd.random() < 0.5 else [1, 3])):
+        p["nv%d" % (pk - 1)] = len(majors)
+        p["latest%d" % (pk - 1)] = -1
+        p["next%d" % (pk - 1)] = -1
+        for vi, mj in enumerate(majors):
+            ver(pk, vi, mj)
+    tx = "%d0" % (X - 1)
+    put("p%ss0" % tx, E, 0, 3)           # X requires E under the alias b (symbolic digit)
+    put("p%ss1" % tx, Z, 2)              # and Z@2, which must nest under X
+    tz = "%d1" % (Z - 1)
+    put("p%ss0" % tz, B, 0, 0, op=rnd.choice([1, 2, 3]))   # the nested Z requires the real b (symbolic digit)
+    return p
+
+
 def run(tier):
     q = tier == "quick"
     base = dict(unwind=400, timeout_s=300 if q else 1200, summarise=SUM, max_witnesses=1, witness_every=50, panic_is_violation=True,
@@ -137,6 +173,7 @@ def run(tier):
     na = 400 if q else 4000
     jobs2 = [dict(base, harness="VerifC06Install", params=skeleton2(rnd2)) for _ in range(n2)]
     jobs2 += [dict(base, harness="VerifC06Install", params=skeleton2(rnd2, alias_p=0.35)) for _ in range(na)]
+    jobs2 += [dict(base, harness="VerifC06Install", params=directed_alias(rnd2)) for _ in range(24 if q else 240)]
     return run_property("C06", tier, [Group("rnpm", jobs + jobs2)],
                         required_covers=["resolved", "a graph with several nodes", "fresh install checked", "a nested install (depth 2)",
                                          "a nested install below a nested install (depth 3)", "an edge resolved to a nested install"],
